@@ -136,8 +136,18 @@ def write_transfer(S, model, name, t, n, i, c, parts, order, newvals):
     return bad
 
 
-def shard(acc, item, tier, seed):
+def shard(acc, item, tier, seed, stop_at=None):
+    """stop_at: replay mode -- run this shard's transfers, in order, on a fresh simulator up to and including transfer number
+    stop_at (a violation's replay case carries its shard and transfer number, so hidden state accumulated by earlier
+    transfers of the shard is reproduced)"""
     what, typ, n, Bs = item
+    counter = [0]
+
+    def tag(case):
+        case = dict(case)
+        case["shard"] = list(item)
+        case["upto"] = counter[0]
+        return case
     t = W.TYPE_CODE[typ]
     cfg = (("t", typ, n, None), ("g", typ, 2, None))      # g: a neighbour that must never change
     S = sim.Sim(cfg)
@@ -155,15 +165,18 @@ def shard(acc, item, tier, seed):
                 M.logix.Logix.MAX_BYTES = B
                 for i, c in ranges(n, B, W.SIZE[t]):
                     if True:
+                        counter[0] += 1
+                        if stop_at is not None and counter[0] > stop_at:
+                            return
                         acc.ev()
                         bad, frags = read_transfer(S, "t", t, n, i, c, B, vals)
                         acc.outcome("fragments=%s" % (frags if frags < 4 else ">=4"))
                         if frags >= 2:
                             acc.ntc()
                         for k, m in bad:
-                            acc.violation(k, {"op": "read", "type": typ, "n": n, "i": i, "c": c, "B": B}, m)
+                            acc.violation(k, tag({"op": "read", "type": typ, "n": n, "i": i, "c": c, "B": B}), m)
                 if not model.matches(S.store()):
-                    acc.violation("read-changed-store", {"op": "read", "type": typ, "n": n, "i": 0, "c": 1, "B": B},
+                    acc.violation("read-changed-store", tag({"op": "read", "type": typ, "n": n, "i": 0, "c": 1, "B": B}),
                                   "store changed during read transfers: %r" % (S.store(),))
             acc.sample({"op": "read", "type": typ, "n": n, "i": n // 2, "c": n - n // 2, "B": Bs[0]})
         else:
@@ -176,12 +189,15 @@ def shard(acc, item, tier, seed):
                     for parts in compositions(c):
                         orders = itertools.permutations(range(len(parts))) if len(parts) <= 4 else [tuple(range(len(parts)))]
                         for order in orders:
+                            counter[0] += 1
+                            if stop_at is not None and counter[0] > stop_at:
+                                return
                             # baseline through the real write path
                             for k, m in model.judge(("wt", ("sym", "t", None), t, tuple(base), n),
                                                     S.cm(refmodel.encode_request(("wt", ("sym", "t", None), t, tuple(base), n))),
                                                     None, S.store()):
-                                acc.violation("baseline:" + k, {"op": "write", "type": typ, "n": n, "i": i, "c": c,
-                                                                 "parts": parts, "order": list(order)}, m)
+                                acc.violation("baseline:" + k, tag({"op": "write", "type": typ, "n": n, "i": i, "c": c,
+                                                                     "parts": parts, "order": list(order)}), m)
                             acc.ev()
                             if len(parts) >= 2:
                                 acc.ntc()
@@ -197,7 +213,7 @@ def shard(acc, item, tier, seed):
                                     and list(dict(S.store())["g"]) != [0.0, 0.0]:
                                 bad.append(("neighbour-changed", "tiling write changed tag g: %r" % (S.store(),)))
                             for k, m in bad:
-                                acc.violation(k, case, m)
+                                acc.violation(k, tag(case), m)
             acc.sample({"op": "write", "type": typ, "n": n, "i": 1, "c": min(3, n - 1), "parts": [1, 2][:min(3, n - 1)], "order": [1, 0]})
     finally:
         M.logix.Logix.MAX_BYTES = 488
@@ -234,33 +250,10 @@ def guards(acc, ctx):
 
 
 def replay(case):
-    acc_bad = []
-    typ, n = case["type"], case["n"]
-    t = W.TYPE_CODE[typ]
-    cfg = (("t", typ, n, None), ("g", typ, 2, None))
-    S = sim.Sim(cfg)
-    M = sim.mods()
-    model = refmodel.TagModel(cfg, S.addr_of)
-    try:
-        if case["op"] == "read":
-            vals = pattern(t, n)
-            if n == 1:
-                S.attrs["t"].default = vals[0]
-            else:
-                S.attrs["t"].default[:] = list(vals)
-            M.logix.Logix.MAX_BYTES = case["B"]
-            bad, _ = read_transfer(S, "t", t, n, case["i"], case["c"], case["B"], vals)
-            return [m for k, m in bad]
-        base = pattern(t, n)
-        newv = [v for v in reversed(pattern(t, n + 3))][:n]
-        i, c, parts, order = case["i"], case["c"], case["parts"], case["order"]
-        req = ("wt", ("sym", "t", None), t, tuple(base), n)
-        bad = list(model.judge(req, S.cm(refmodel.encode_request(req)), None, S.store()))
-        bad += write_transfer(S, model, "t", t, n, i, c, parts, order, newv[i:i + c])
-        want = base[:i] + newv[i:i + c] + base[i + c:]
-        got = list(dict(model.canon(S.store()))["t"])
-        if not bad and not refmodel.same_list(want, got):
-            bad.append(("wrong-tiled-write", "tag holds %r, expected %r" % (got, want)))
-        return [m for k, m in bad]
-    finally:
-        M.logix.Logix.MAX_BYTES = 488
+    """re-run the violation's shard from its start, on a fresh simulator, up to and including the failing transfer"""
+    from mc import core
+    acc = core.Acc()
+    item = case["shard"]
+    item = (item[0], item[1], item[2], item[3] if not isinstance(item[3], list) else list(item[3]))
+    shard(acc, item, "thorough", 0, stop_at=case["upto"])
+    return [v["msg"] for v in acc.violations if v["case"].get("upto") == case["upto"]]
